@@ -791,6 +791,12 @@ class Interp:
         if k in ('CallExpr', 'CXXMemberCallExpr', 'CXXOperatorCallExpr'):
             val[i] = self.do_call(fn, e, env, val, this, depth)
             return
+        if k == 'CXXNewExpr' and not e.get('nplace') and not e.get('place') and e.get('asize') is None and e.get('init') is not None:
+            iv = self.rv(V(e['init']))
+            if isinstance(iv, Rec):
+                val[i] = Ptr(copy_rec(iv))          # `new T(args)`: a fresh object holding what the constructor produced
+                return
+            self.broken(fn, e, 'new of a %s' % type(iv).__name__)
         if k == 'CXXNewExpr' and e.get('nplace') == 1 and e.get('place'):
             tgt = self.rv(V(e['place'][0]))
             iv = self.rv(V(e['init'])) if e.get('init') is not None else None
